@@ -246,6 +246,10 @@ func HarnessC13Siblings() {
 		errs := verifLintNode(doc, verifRules())
 		verifReach("schedule")
 		verifCheck(verifErrAt(errs, cron) >= 1, "unknown-key-hides-sibling-diagnostic")
+		if len(item.Content) > 2 {
+			// the foreign key of a schedule item is reported at the item
+			verifCheck(verifErrAt(errs, item) >= 1, "foreign-key-of-schedule-item-not-reported-at-the-item")
+		}
 	case 2:
 		// a reusable workflow call with two keys that are only for normal jobs
 		k1, k2 := s("runs-on"), s("timeout-minutes")
@@ -259,11 +263,13 @@ func HarnessC13Siblings() {
 		// a step with `with` and `working-directory` but no `uses`: the key that does not fit an
 		// action step is reported and so is the missing `uses`
 		wd := s("dir")
-		step := yMap(s("with"), yMap(s("a"), s("b")), s("working-directory"), wd)
+		step := yMap(s("with"), yMap(s([]string{"a", "script", "Script"}[verifChoose("input", 3)]), s("b")), s("working-directory"), wd)
 		doc := yDoc(yMap(s("on"), s("push"), s("jobs"), yMap(s("j"), yMap(s("runs-on"), s("ubuntu-latest"), s("steps"), ySeq(step)))))
 		verifPlace(doc, 1, 0)
 		p := &parser{}
-		p.parse(doc)
+		w := p.parse(doc)
+		// the rules still run on what the parser kept (no rule may rely on the missing key)
+		verifVisit(w, nil, verifRules())
 		verifReach("normal-job")
 		uses := 0
 		for _, e := range p.errors {
